@@ -175,6 +175,22 @@ def run(ctx):
             for code, nm in ((68, "DataRow"), (72, "CopyOutResponse")):
                 okc = code in arms and any(rc.dominates(arms[code], blk) for blk, st in sets)
                 r4.check(okc, "sets:%s" % nm, "%s sets data_available before the chunk is handed out" % nm, "%s no longer sets data_available (a reply flushed at the 8 KiB threshold would end the forward loop)" % nm)
+            # early hand-out: recv leaves its read loop before ReadyForQuery only inside the arms of messages after which either more
+            # data is flagged (DataRow / CopyOutResponse / CopyData within a flagged COPY OUT) or the server waits for the client (CopyInResponse)
+            rl = [hd for hd in loop_headers(rc) if any(c.block in natural_loop(rc, hd) for c in rc.calls("pgcat::messages::read_message"))]
+            if rl:
+                lp = natural_loop(rc, max(rl, key=lambda x: len(natural_loop(rc, x))))
+                okb_ = [blk for blk, i, st in rc.assigns() if st["lhs"]["l"] == 0 and st["rv"]["k"] == "agg" and st["rv"].get("variant") == "Ok"]
+                exits_ = {(u, v) for u in lp for v in rc.succ("n")[u] if v not in lp and not rc.blocks[v]["cleanup"] and rc.blocks[v]["term"]["k"] != "unreachable" and (rc.reach([v]) & set(okb_))}
+                allowed_arms = {90: "Z", 68: "D", 71: "G", 72: "H", 100: "d"}
+                badx = []
+                for (u, v) in sorted(exits_):
+                    if u == code_sw[0].block and v in {arms[c_] for c_ in allowed_arms if c_ in arms}:
+                        continue  # the arm itself leaves the loop (e.g. CopyInResponse: break)
+                    if not any(code in arms and rc.dominates(arms[code], u) for code in allowed_arms):
+                        badx.append(u)
+                r4.check(bool(exits_) and not badx, "early-handout-arms", "recv hands out a partial reply only from the Z / D / H / G / d arms (%d exits)" % len(exits_),
+                         "recv can return before ReadyForQuery from a place that is not tied to DataRow/Copy messages (bb%s): with data_available still false the caller stops reading and the client gets a truncated reply without ReadyForQuery" % badx[:3])
             others = sorted({b_.name for b_, blk, st in F.field_writes(lambda f, b_, st: f == "data_available") if b_.name != RECV})
             r4.check(not others, "flag-writers", "only Server::recv writes data_available", "data_available written by %s" % others)
     # ---------------- R5 flush point forwards everything buffered
